@@ -286,7 +286,7 @@ ADDENDA = {
             "a comparator that ends in a known non-injective key (unscoped name, a count) is not total; every scalar member is definitely assigned by every constructor",
             "comparator key deny-list"),
     "C15": ("R15.6-R15.14, resize in R15.2, INT_MIN / -1 in R15.3; sections 8, 9",
-            "resize(size()-k) needs the dominating size test like substr/erase; signed / and % are guarded against INT_MIN / -1; scanner and token loops cannot cycle at end of input; string cursors are not used past size() after an untested increment (found F-C15f/g); _infile is dereferenced only behind a null test (found F-C15h; F-C15i by the token-loop rule); nothing reports through current_lexer after its restore; the parser's construction statics are stacked (found F-C15j); predicates recursing over member types need a cycle guard (F-C15k known)",
+            "resize(size()-k) needs the dominating size test like substr/erase; signed / and % are guarded against INT_MIN / -1; scanner and token loops cannot cycle at end of input; string cursors are not used past size() after an untested increment (found F-C15f/g); _infile is dereferenced only behind a null test (found F-C15h; F-C15i by the token-loop rule); nothing reports through current_lexer after its restore; the parser's construction statics are stacked (found F-C15j); predicates recursing over member types need a cycle guard (found F-C15k, repaired)",
             "gated reachability"),
     "C16": ("R16.3, cycle-edge clause of R16.2; section 8",
             "on the cycle branch only an edge cycle[i] -> cycle[i+1] of the reported cycle may be given up; every contributing library becomes a key of the dependency map",
